@@ -214,6 +214,32 @@ def count_obligations(files):
     return n_stmt, n_qed
 
 
+def snapshot_vo(vfiles, workdir):
+    """copy the compiled closure (.vo of the given .v files) into workdir/vo under the shared lock;
+    probes and case files are then evaluated against the copy, so a concurrent rebuild of the
+    shared tree can neither disturb them nor be held up by them"""
+    dest = os.path.join(workdir, "vo")
+    if os.path.isdir(dest):
+        shutil.rmtree(dest)
+    with Lock("coq", shared=True):
+        for f in vfiles:
+            src = os.path.join(COQ, f[:-2] + ".vo")
+            if not os.path.exists(src):
+                continue
+            rel = os.path.relpath(f[:-2] + ".vo", "theories")
+            d = os.path.join(dest, os.path.dirname(rel))
+            os.makedirs(d, exist_ok=True)
+            shutil.copy(src, os.path.join(dest, rel))
+    return dest
+
+
+VO_ROOT = [os.path.join(COQ, "theories")]
+
+
+def vo_root():
+    return VO_ROOT[0]
+
+
 def print_assumptions(module, theorems, workdir):
     """{theorem: [axioms]} via a scratch file compiled against the built .vo files"""
     os.makedirs(workdir, exist_ok=True)
@@ -222,8 +248,7 @@ def print_assumptions(module, theorems, workdir):
         f.write("Require Import %s.\n" % module)
         for t in theorems:
             f.write('Goal True. idtac "@@BEGIN %s". Abort.\nPrint Assumptions %s.\nGoal True. idtac "@@END". Abort.\n' % (t, t))
-    with Lock("coq", shared=True):
-        rc, out = sh(["coqc", "-noglob", "-Q", os.path.join(COQ, "theories"), "NDB", path], cwd=workdir, timeout=600)
+    rc, out = sh(["coqc", "-noglob", "-Q", vo_root(), "NDB", path], cwd=workdir, timeout=600)
     res = {}
     if rc != 0:
         return None, out
@@ -252,8 +277,7 @@ def statement_of(module, theorems, workdir):
         f.write("Require Import %s.\n" % module)
         for t in theorems:
             f.write('Goal True. idtac "@@BEGIN %s". Abort.\nPrint %s.\nGoal True. idtac "@@END". Abort.\n' % (t, t))
-    with Lock("coq", shared=True):
-        rc, out = sh(["coqc", "-noglob", "-Q", os.path.join(COQ, "theories"), "NDB", path], cwd=workdir, timeout=600)
+    rc, out = sh(["coqc", "-noglob", "-Q", vo_root(), "NDB", path], cwd=workdir, timeout=600)
     res, cur = {}, None
     for line in out.splitlines():
         m = re.match(r"@@BEGIN (\S+)", line)
@@ -272,16 +296,11 @@ def run_case_files(files, jobs=16, timeout=1800):
     bad, errors = [], []
 
     def one(f):
-        rc, out = sh(["coqc", "-noglob", "-Q", os.path.join(COQ, "theories"), "NDB", f],
+        rc, out = sh(["coqc", "-noglob", "-Q", vo_root(), "NDB", f],
                      cwd=os.path.dirname(f), timeout=timeout)
         return f, rc, out
 
-    lock = Lock("coq", shared=True)
-    lock.__enter__()
-    try:
-        results = list(concurrent.futures.ThreadPoolExecutor(max_workers=jobs).map(one, files))
-    finally:
-        lock.__exit__()
+    results = list(concurrent.futures.ThreadPoolExecutor(max_workers=jobs).map(one, files))
     if True:
         for f, rc, out in results:
             if rc != 0:
@@ -309,8 +328,7 @@ def run_case_files(files, jobs=16, timeout=1800):
 
 
 def coqchk(module, timeout=3000):
-    with Lock("coq", shared=True):
-        rc, out = sh(["coqchk", "-o", "-silent", "-Q", os.path.join(COQ, "theories"), "NDB", module], cwd=COQ, timeout=timeout)
+    rc, out = sh(["coqchk", "-o", "-silent", "-Q", vo_root(), "NDB", module], cwd=COQ, timeout=timeout)
     return rc, out
 
 
@@ -479,6 +497,7 @@ def run_check(spec, tier, seed, replay=None):
         m = re.search(r'File "([^"]+)", line (\d+)', out)
         where = "%s:%s" % (m.group(1), m.group(2)) if m else "?"
         res.broken.append(("proof obligation no longer checks (%s)" % where, out.strip()[-2500:]))
+    VO_ROOT[0] = snapshot_vo(deps, work)
     n_stmt, n_qed = count_obligations(deps)
     cov["obligations"] = n_stmt
     cov["discharged"] = n_qed if proofs_ok else 0
@@ -535,6 +554,7 @@ def run_check(spec, tier, seed, replay=None):
             corr_ok = proofs_ok
             if files and not corr_ok:
                 corr_ok = coq_make([module_file(m) + "o" for m in spec.get("corr_modules", [])])[0]
+                VO_ROOT[0] = snapshot_vo(deps, work)
             if files and corr_ok:
                 t1 = time.time()
                 badidx, errors = run_case_files(files)
